@@ -55,10 +55,9 @@ class GDevice(Device):
   @bounds.setter
   def bounds(self, bounds):
     ''' @override bounds setter to ensure hbounds <= 0. '''
-    Device.bounds.fset(self, bounds)
-    bounds = np.array(bounds)
-    if not (self.hbounds <= 0).all():
+    if not (np.array(self.validate_bounds(bounds)[:, 1]) <= 0).all():
       raise ValueError('hbounds must be <= 0')
+    Device.bounds.fset(self, bounds)
 
   @cost_coeffs.setter
   def cost_coeffs(self, cost):
